@@ -56,7 +56,7 @@ func (r *Result) sample(s any) {
 
 func (r *Result) violate(v Violation) {
 	if v.Known != "" {
-		r.KnownHits[v.Known]++
+		r.KnownHits[v.Property+"|"+v.Known]++
 		return
 	}
 	if len(r.Violations) < 10 {
